@@ -1,5 +1,52 @@
-(* L2: property checkers applied to the implementation's outputs *)
+(* L2: the properties' conclusions evaluated on the implementation's outputs.
+   One line per (case, property):  <lineno> \t L2 \t <prop> \t ok|FAIL|skip|known \t <detail> *)
 open Model
 open Util
 
-let run (_lineno : int) _lbc _ofit (_args : string array) (_impl : string) : unit = ()
+let say lineno prop status detail = Printf.printf "%d\tL2\t%s\t%s\t%s\n" lineno prop status detail
+
+let sum_cw (v : str) : n = List.fold_left (fun acc c -> N.add acc (cw c)) N0 v
+let n_le a b = N.leb a b
+
+let dgroups (f : string) : (int * int) list =
+  List.map (fun t -> match split_on '+' t with [a; b] -> (int_of_string a, int_of_string b) | _ -> failwith "bad group") (dlist f)
+
+(* C06: non-empty contiguous runs covering 0..n; the empty input gives one empty line *)
+let partition_ok (n : int) (gs : (int * int) list) : string option =
+  if n = 0 then (if gs = [(0, 0)] then None else Some "empty input must give exactly one empty line")
+  else
+    let rec go pos = function
+      | [] -> if pos = n then None else Some (Printf.sprintf "lines cover %d of %d fragments" pos n)
+      | (off, len) :: r ->
+          if off <> pos then Some (Printf.sprintf "line starts at %d, expected %d" off pos)
+          else if len <= 0 then Some "empty line"
+          else go (pos + len) r in
+    go 0 gs
+
+let is_bad impl = impl = "PANIC" || impl = "HANG" || String.length impl >= 7 && String.sub impl 0 7 = "UNKNOWN"
+
+let run (lineno : int) (lbc : str -> n list) ofit (args : string array) (impl : string) : unit =
+  let f i = args.(i) in
+  let say = say lineno in
+  (* C04: every op — the implementation returned normally *)
+  if impl = "PANIC" || impl = "HANG" then say "C04" "FAIL" ("implementation " ^ impl)
+  else if List.mem "PANIC" (split_on '\t' impl) then say "C04" "FAIL" "implementation PANIC"
+  else say "C04" "ok" "";
+  match f 0 with
+  | "dw" when not (is_bad impl) ->
+      let t = ds (f 1) in
+      let d = n_of_dec impl in
+      if not (n_le d (blen t)) then say "C10" "FAIL" "display_width exceeds the byte length"
+      else (match wf_strip t with
+            | Some v -> if N.eqb d (sum_cw v) then say "C10" "ok" "wf"
+                        else say "C10" "FAIL" ("well-formed text: expected " ^ dec_of_n (sum_cw v))
+            | None -> say "C10" "ok" "not-wf")
+  | ("ff" | "of") when not (is_bad impl) ->
+      if impl = "ERR" then say "C06" "skip" "overflow error"
+      else begin
+        let n = List.length (dlist (f 1)) in
+        match partition_ok n (dgroups impl) with
+        | None -> say "C06" "ok" ""
+        | Some why -> say "C06" "FAIL" why
+      end
+  | _ -> ()
